@@ -297,15 +297,66 @@ def eval_expr(e: ast.AST, env: Callable[[ast.AST], object]) -> object:
     return NOVALUE
 
 
+def eval_pattern(case: ast.match_case, env: Callable[[ast.AST], object]) -> object:
+    """Does the pattern of `case` match the (scenario) value of its match subject?"""
+    m = parent(case)
+    if not isinstance(m, ast.Match):
+        return NOVALUE
+    subj = eval_expr(m.subject, env)
+
+    def go(p: ast.pattern) -> object:
+        if isinstance(p, ast.MatchAs):
+            return True if p.pattern is None else go(p.pattern)
+        if subj is NOVALUE:
+            v = env(p)
+            return v
+        if isinstance(p, ast.MatchSingleton):
+            return subj is p.value
+        if isinstance(p, ast.MatchValue) and isinstance(p.value, ast.Constant):
+            return subj == p.value.value
+        if isinstance(p, ast.MatchOr):
+            vals = [go(x) for x in p.patterns]
+            if any(v is True for v in vals):
+                return True
+            return NOVALUE if any(v is NOVALUE for v in vals) else False
+        v = env(p)
+        return v
+
+    return go(case.pattern)
+
+
+def with_locals(deps: "Deps", env: Callable[[ast.AST], object]) -> Callable[[ast.AST], object]:
+    """Wrap a scenario so that single-definition locals evaluate to the value of their definition."""
+
+    def wrapped(e: ast.AST) -> object:
+        v = env(e)
+        if v is not NOVALUE:
+            return v
+        if isinstance(e, ast.Name):
+            sv = deps.single_value(e.id)
+            if sv is not None and not isinstance(sv, (ast.Await, ast.Yield)):
+                owner = deps.owner(e.id)
+                for kind, node in deps.defs(owner, e.id):
+                    if isinstance(parent(node), (ast.Match, ast.For, ast.AsyncFor, ast.withitem)) or kind != "value":
+                        return NOVALUE
+                return eval_expr(sv, wrapped)
+        return NOVALUE
+
+    return wrapped
+
+
 def scenario(g: CFG, env: Callable[[ast.AST], object]) -> Callable[[Node, Node, str], bool]:
     """skip_edge predicate that removes the branch edges contradicting the scenario `env`."""
     cache: dict[int, object] = {}
 
     def skip(a: Node, b: Node, lab: str) -> bool:
-        if a.kind != "test" or lab not in ("T", "F"):
+        if a.kind not in ("test", "match-case") or lab not in ("T", "F"):
             return False
         if a.id not in cache:
-            cache[a.id] = eval_expr(a.ast, env)  # type: ignore[arg-type]
+            if a.kind == "match-case":
+                cache[a.id] = eval_pattern(a.ast, env)  # type: ignore[arg-type]
+            else:
+                cache[a.id] = eval_expr(a.ast, env)  # type: ignore[arg-type]
         v = cache[a.id]
         if v is NOVALUE:
             return False
